@@ -11,11 +11,11 @@ import PySMT.Impl.TheoryOracle
 * `mutate a f`       an attribute assignment on the object at `a` (`theory_out.uninterpreted = True`, ...);
 * returning an argument's address: the rule hands back the very object it was given.
 
-Rules that mutate in place (current source): `walk_function` (`uninterpreted`), `walk_str_int` (`integer_*`),
-`walk_bv_tonatural` (`integer_*`), `walk_array_value` (`arrays`, `arrays_const`), and `walk_constant` /
-`_theory_from_type` (on the `Theory()` they have just made).  Rules that can return an argument object itself:
-`walk_quantifier` for an empty list of bound variables and `walk_div` for an argument list that is not of length 2
-(neither is constructible through the formula manager).
+Rules that mutate in place (current source): `walk_function` (`uninterpreted`), `walk_bv_tonatural` (`integer_*`),
+`walk_array_value` (`arrays`, `arrays_const`), and `walk_constant` / `_theory_from_type` (on the `Theory()` they have
+just made); `walk_str_int` did until the F50 repair (it now combines with a new Int theory).  The only rule that can
+return an argument object itself is `walk_quantifier` for an empty list of bound variables (not constructible
+through the formula manager); `walk_div` ends with `set_difference_logic`, a copy.
 
 The *values* are those of c13's `TheoryOracle.rule` (proved in `Proofs/TheoryHeap.lean`).
 -/
@@ -84,6 +84,16 @@ def objHd (h : Heap) : List Nat → Nat × Heap
   | a :: _ => (a, h)
   | [] => h.new T0
 
+/-- `walk_div` before its final `set_difference_logic` -/
+def divCoreO (h : Heap) (args : List Term) (as : List Nat) : Nat × Heap :=
+  let t := foldBaseO h as
+  match args, as with
+  | [_, d], [_, td] =>
+      if hasFreeVars d then t.2.new ((t.2.cells t.1).set_linear false)
+      else if isZero d then t.2.new ((t.2.cells t.1).set_linear false)
+      else combineO t.2 t.1 td
+  | _, _ => t
+
 /-- one `walk_*` method on the objects `as` of the children; returns the object it returns -/
 def ruleH (op : Op) (p : Payload) (args : List Term) (as : List Nat) (h : Heap) : Nat × Heap :=
   match op with
@@ -113,7 +123,8 @@ def ruleH (op : Op) (p : Payload) (args : List Term) (as : List Nat) (h : Heap) 
   -- walk_str_int
   | .strLength | .strIndexOf | .strToInt =>
       let o := walkCombineO h as
-      (o.1, o.2.mutate o.1 withInt)
+      let i := o.2.new intTheory                                    -- Theory(integer_arithmetic=True, ...)
+      combineO i.2 o.1 i.1                                          -- theory_out.combine(int_theory): a new object
   -- walk_bv_tonatural
   | .bvToNatural =>
       let o := h.new (cellHd h as).copy                            -- args[0].copy()
@@ -124,7 +135,9 @@ def ruleH (op : Op) (p : Payload) (args : List Term) (as : List Nat) (h : Heap) 
       let t := if (args.filter hasFreeVars).length > 1 then t.2.new ((t.2.cells t.1).set_linear false) else t
       t.2.new ((t.2.cells t.1).set_difference_logic false)
   -- walk_pow
-  | .pow => h.new ((cellHd h as).set_linear false)
+  | .pow =>
+      let t := h.new ((cellHd h as).set_linear false)
+      t.2.new ((t.2.cells t.1).set_difference_logic false)
   -- walk_plus
   | .plus =>
       let t := foldBaseO h as
@@ -142,13 +155,8 @@ def ruleH (op : Op) (p : Payload) (args : List Term) (as : List Nat) (h : Heap) 
        | _ => let o := copyO t.2 t.1; (o.1, o.2.mutate o.1 withConstArrays))
   -- walk_div
   | .div =>
-      let t := foldBaseO h as
-      (match args, as with
-       | [_, d], [_, td] =>
-           if hasFreeVars d then t.2.new ((t.2.cells t.1).set_linear false)
-           else if isZero d then t.2.new ((t.2.cells t.1).set_linear false)
-           else combineO t.2 t.1 td
-       | _, _ => t)
+      let u := divCoreO h args as
+      u.2.new ((u.2.cells u.1).set_difference_logic false)          -- always a copy
   -- walk_quantifier
   | .forall_ | .exists_ =>
       (match p with
